@@ -67,6 +67,19 @@ def run(chk):
                     chk.fail("%s enrolment from statistics held in Dask arrays differs from the same statistics in NumPy arrays" % kind, ctx)
             except Exception as e:
                 chk.fail("%s enrolment from statistics held in Dask arrays raises %r" % (kind, e), ctx)
+        if i % 5 == 2:
+            # enrol, train the SAME machine object further, enrol again: the second enrolment is that of a fresh machine holding the trained U, V, D
+            mt_ = copy.deepcopy(m)
+            mt_.em_iterations = 1
+            tr_ = [fa.gen_stats(r, ubm, 2) for _ in range(2)]
+            mt_.fit([q_ for cl_ in tr_ for q_ in cl_], np.array([0, 0, 1, 1]))
+            mf_ = fa.make_machine(kind, ubm, rU, rV, U=np.array(mt_.U), V=np.array(mt_.V) if kind == "jfa" else None, Dv=np.array(mt_.D))
+            mf_.enroll_iterations = K
+            after_, fresh_ = mt_.enroll(stats), mf_.enroll(stats)
+            chk.count(1, key=("enrol, train, enrol again", kind))
+            if not all(np.allclose(np.asarray(a_, dtype=float), np.asarray(b_, dtype=float), rtol=1e-10, atol=1e-12) for a_, b_ in zip(after_, fresh_)):
+                chk.fail("%s: enrolment after the machine was trained further (it had enrolled a client before) differs from the enrolment by a fresh machine with the same U, V, D "
+                         "(something computed for the first enrolment survives the training)" % kind, dict(ctx, history="enroll, fit, enroll"))
         if i % 4 == 3:
             # the result does not depend on the logging level (diagnostics are read-only)
             import logging
